@@ -93,7 +93,11 @@ where
         let mut job_broker = JobBroker::new(thread_count, close_at);
         job_broker.push(pending);
 
+        #[cfg(getong_stateright_verif)]
+        let verif_ctx = crate::verif_hooks::spawn_ctx();
         for t in 0..thread_count {
+            #[cfg(getong_stateright_verif)]
+            let verif_ctx = verif_ctx.clone();
             let model = Arc::clone(&model);
             let visitor = Arc::clone(&visitor);
             let mut job_broker = job_broker.clone();
@@ -109,6 +113,10 @@ where
                 std::thread::Builder::new()
                     .name(format!("checker-{}", t))
                     .spawn(move || {
+                        #[cfg(getong_stateright_verif)]
+                        let _verif_worker = crate::verif_hooks::enter_worker(&verif_ctx, t);
+                        #[cfg(getong_stateright_verif)]
+                        let mut job_broker = job_broker;
                         log::debug!("{}: Thread started.", t);
                         let mut pending = VecDeque::new();
                         let mut targetted_pending = VecDeque::new();
@@ -210,6 +218,8 @@ where
                             }
 
                             // Step 2: Share work.
+                            #[cfg(getong_stateright_verif)]
+                            crate::verif_hooks::yield_point("on_demand.before_share");
                             if pending.len() > 1 && thread_count > 1 {
                                 job_broker.split_and_push(&mut pending);
                             }
@@ -260,10 +270,14 @@ where
 
         let mut current_max_depth = global_max_depth.load(Ordering::Relaxed);
         let mut actions = Vec::new();
+        #[cfg(getong_stateright_verif)]
+        let max_count = crate::verif_hooks::block_size(max_count);
         let mut local_pending = pending
             .drain(..max_count.min(pending.len()))
             .collect::<Vec<_>>();
         loop {
+            #[cfg(getong_stateright_verif)]
+            crate::verif_hooks::yield_point("on_demand.block_iteration");
             // Done if none pending.
             let (state, state_fp, mut ebits, max_depth) = match local_pending.pop() {
                 None => return,
@@ -368,6 +382,8 @@ where
                 // property held on the path leading to the first visit as meaning
                 // that it holds in the path leading to the second visit -- another
                 // possible false-negative.
+                #[cfg(getong_stateright_verif)]
+                crate::verif_hooks::yield_point("on_demand.before_insert");
                 if let Entry::Vacant(next_entry) = generated.entry(next_fp) {
                     next_entry.insert(Some(state_fp));
                 } else {
